@@ -160,7 +160,12 @@ func RecordFail(prop string, c interface{}, msg string) {
 	}
 	b, _ := json.MarshalIndent(FailFile{Property: prop, Message: msg, Case: cb}, "", " ")
 	os.MkdirAll(dir, 0o755)
-	os.WriteFile(filepath.Join(dir, prop+".json"), b, 0o644)
+	// atomically: the process may be stopped (hang guard, driver timeout) while
+	// rapid is still shrinking and re-recording
+	tmp := filepath.Join(dir, prop+".json.tmp")
+	if os.WriteFile(tmp, b, 0o644) == nil {
+		os.Rename(tmp, filepath.Join(dir, prop+".json"))
+	}
 }
 
 // Replay runs the oracle of the recorded property on the recorded case.
